@@ -171,6 +171,18 @@ def create (start preTerm splitOff : Nat) (interval : Nat := 128) (areaEnd : Nat
     msgCount := 0, lastTerm := preTerm, curCount := 0, splitOff := max splitOff start,
     pos := dataStart, needSeek := false }
 
+/-- `init` after the end-of-log scan: a kill can separate the record that completes an index step from its index
+entry; the entries that are missing are written back (the scan is repeated with the step as its limit) -/
+def repairIndex : Nat → LogFile → LogFile
+  | 0, f => f
+  | fuel + 1, f =>
+    if f.interval = 0 ∨ f.msgCount - ((lastIdx f).logIndex - f.startIndex) < f.interval then f
+    else
+      let mv := moveByCount f.bytes (lastIdx f) f.startIndex f.interval
+      let delta := vwrite (mv.1 - (lastIdx f).fileIndex)
+      repairIndex fuel { f with bytes := writeAt f.bytes f.indexCursor delta, indexCursor := f.indexCursor + delta.length,
+                                indexs := f.indexs ++ [⟨(lastIdx f).logIndex + f.interval, mv.1⟩] }
+
 /-- the end of `init`: the term of the last record, if there is one that is not split off -/
 def initTerm (f0 : LogFile) (preTerm : Nat) : LogFile :=
   if f0.msgCount > 0 then
@@ -196,7 +208,7 @@ def load (bytes : List Nat) (fileLen start preTerm splitOff : Nat) : LogFile :=
       indexs := indexs, startIndex := start, indexCursor := off + 32, dataCursor := dc, msgCount := mc,
       lastTerm := preTerm, curCount := if interval = 0 then 0 else mc % interval,
       splitOff := max splitOff start, pos := dc, needSeek := false }
-  initTerm f0 preTerm
+  initTerm (repairIndex (mc + 1) f0) preTerm
 
 def init (disk : List Nat) (fileLen start preTerm splitOff : Nat) (interval : Nat := 128) (areaEnd : Nat := 4096) :
     LogFile :=
